@@ -102,7 +102,24 @@ static void judge_valid(const vector<Poly> &sc, const vector<Poly> &scS, P a, P 
     if (r.ps[0].x != a.x * S || r.ps[0].y != a.y * S || r.ps[r.size() - 1].x != b.x * S || r.ps[r.size() - 1].y != b.y * S)
         ctx.violation("endpoints_moved", kc, desc, route_str(r));
     for (size_t k = 1; k < r.size(); k++) for (auto &sh : scS)
-        if (hitsInteriorD(sh, r.ps[k - 1].x, r.ps[k - 1].y, r.ps[k].x, r.ps[k].y, 1e-6)) { ctx.violation("through_shape", kc, desc, route_str(r)); return; }
+        if (hitsInteriorD(sh, r.ps[k - 1].x, r.ps[k - 1].y, r.ps[k].x, r.ps[k].y, 1e-6)) {
+            // class through_vertex (same definition as in the C06 harness): the offending segment crosses the boundary of the shape it
+            // cuts exactly at a vertex -- a vertex of any shape strictly inside the segment and on the cut shape's boundary, or a
+            // segment end that coincides with a vertex of the cut shape
+            vector<string> kc2 = kc; bool tv = false; double ax = r.ps[k - 1].x, ay = r.ps[k - 1].y, bx = r.ps[k].x, by = r.ps[k].y, L = (bx - ax) * (bx - ax) + (by - ay) * (by - ay);
+            for (auto &v : sh.v) { double cr = (bx - ax) * (v.y - ay) - (v.x - ax) * (by - ay), dt = (v.x - ax) * (bx - ax) + (v.y - ay) * (by - ay); if (cr == 0 && (dt == 0 || dt == L)) tv = true; }
+            for (auto &o : scS) for (auto &v : o.v) { double cr = (bx - ax) * (v.y - ay) - (v.x - ax) * (by - ay), dt = (v.x - ax) * (bx - ax) + (v.y - ay) * (by - ay); if (!(cr == 0 && dt > 0 && dt < L)) continue;
+                bool onB = false; for (size_t e = 0; e < sh.v.size(); e++) { P u = sh.v[e], w2 = sh.v[(e + 1) % sh.v.size()]; if (cross(u, w2, v) == 0 && dot(u, w2, v) >= 0 && dot(w2, u, v) >= 0) onB = true; } if (onB) tv = true; }
+            if (tv && !ortho) kc2.push_back("through_vertex");
+            // class chord_from_newer_vertex: both ends of the segment lie on the cut shape's boundary and at least one of them is a
+            // vertex of a shape created AFTER the cut shape (the edge was produced by the visibility sweep for the newer shape).
+            // An edge between vertices of OLDER shapes that a newly added shape fails to block is NOT in the class.
+            { size_t ci = &sh - &scS[0]; bool aOn = false, bOn = false, newer = false;
+              for (size_t e = 0; e < sh.v.size(); e++) { P u = sh.v[e], w2 = sh.v[(e + 1) % sh.v.size()]; P pa{(ll)ax, (ll)ay}, pb{(ll)bx, (ll)by};
+                  if (cross(u, w2, pa) == 0 && dot(u, w2, pa) >= 0 && dot(w2, u, pa) >= 0) aOn = true; if (cross(u, w2, pb) == 0 && dot(u, w2, pb) >= 0 && dot(w2, u, pb) >= 0) bOn = true; }
+              for (size_t j = ci + 1; j < scS.size(); j++) for (auto &v : scS[j].v) if ((v.x == ax && v.y == ay) || (v.x == bx && v.y == by)) newer = true;
+              if (aOn && bOn && newer && !ortho) kc2.push_back("chord_from_newer_vertex"); }
+            ctx.violation("through_shape", kc2, desc, route_str(r)); return; }
     if (ortho) for (size_t k = 1; k < r.size(); k++) if (r.ps[k].x != r.ps[k - 1].x && r.ps[k].y != r.ps[k - 1].y) { ctx.violation("not_orthogonal", kc, desc, route_str(r)); return; }
 }
 static vector<Poly> scaled(const vector<Poly> &sc) { vector<Poly> o = sc; for (auto &p : o) for (auto &v : p.v) { v.x *= S; v.y *= S; } return o; }
@@ -147,6 +164,31 @@ static void c03_phase(int G, int k, bool ortho, double buf, bool touchingWithBuf
         }
         } catch (vpsc::CriticalFailure &f) { ctx.library_abort(f.what(), (ortho ? "orthogonal " : "polyline ") + mcx::fmt("buf=%g scene ", buf) + scene_str(sc)); }
         ctx.done_case();
+    });
+}
+
+// scenes of k rectangles created in EVERY order (shapes are added one after the other inside the first transaction, and
+// what a later shape blocks is decided by a different code path than the sweep that computes visibility for a new shape)
+static void c03_orders_phase(int G, int k, int epStep) {
+    vector<Poly> alpha = shape_alphabet(G, false);
+    ctx.phase(mcx::fmt("C03 polyline G=%d rectangles=%d in every creation order, every %d-th endpoint pair", G, k, epStep));
+    for_scenes(alpha, k, 0, false, [&](const vector<Poly> &sc0) {
+        vector<int> perm(k); for (int i = 0; i < k; i++) perm[i] = i;
+        do {
+            if (!ctx.next()) continue;
+            vector<Poly> sc; for (int i : perm) sc.push_back(sc0[i]);
+            vector<P> fr = free_points(sc, G); for (int x = -1; x <= G + 1; x++) for (int y = -1; y <= G + 1; y++) if (x < 0 || y < 0 || x > G || y > G) fr.push_back(P{x, y});
+            vector<Poly> scS = scaled(sc); ctx.count("states"); ctx.sample("polyline creation order " + scene_str(sc), 1);
+            try {
+                Avoid::Router *r = mk_router(false, 0, 0, sc);
+                vector<Avoid::ConnRef *> cs; vector<pair<P, P>> eps; size_t c = 0;
+                for (size_t a = 0; a < fr.size(); a++) for (size_t b = a + 1; b < fr.size(); b++) if ((c++ % epStep) == 0) { eps.push_back({fr[a], fr[b]}); cs.push_back(mk_conn(r, fr[a], fr[b])); }
+                r->processTransaction();
+                for (size_t i = 0; i < eps.size(); i++) judge_valid(sc, scS, eps[i].first, eps[i].second, cs[i]->displayRoute(), false, G, "polyline creation-order", {});
+                delete r;
+            } catch (vpsc::CriticalFailure &f) { ctx.library_abort(f.what(), "polyline creation order " + scene_str(sc)); }
+            ctx.done_case();
+        } while (next_permutation(perm.begin(), perm.end()));
     });
 }
 
@@ -294,7 +336,8 @@ int main(int argc, char **argv) {
         c03_phase(3, 2, false, 0, false); c03_phase(3, 2, true, 0, false);
         c03_phase(3, 1, false, 2, false); c03_phase(3, 2, false, 2, false); c03_phase(3, 2, true, 2, false);
         c03_phase(3, 2, false, 2, true); c03_phase(3, 2, true, 2, true);
-        if (T) { c03_phase(4, 2, true, 0, false); c03_phase(4, 2, false, 0, false); c03_phase(3, 3, true, 0, false); c03_phase(3, 3, false, 0, false); c03_phase(4, 2, true, 2, false); }
+        c03_orders_phase(3, 2, 1); c03_orders_phase(3, 3, 3);
+        if (T) { c03_orders_phase(3, 3, 1); c03_orders_phase(4, 2, 1); c03_phase(4, 2, true, 0, false); c03_phase(4, 2, false, 0, false); c03_phase(3, 3, true, 0, false); c03_phase(3, 3, false, 0, false); c03_phase(4, 2, true, 2, false); }
     } else if (PROP == "C04") {
         for (double pen : {0.0, 0.5, 3.0}) { c04_phase(4, 1, pen, true); c04_phase(T ? 4 : 3, 2, pen, true); c04_phase(4, 2, pen, false); }
         if (T) { c04_phase(5, 1, 0, true); c04_phase(5, 2, 0, false); c04_phase(5, 2, 0.5, false); c04_phase(3, 3, 0, true); c04_phase(4, 3, 0, false); c04_phase(4, 3, 3, false); }
